@@ -48,7 +48,7 @@ def gen(rng, tier):
                 rules.append([v, [['T', 'a']]])
         # the simple text format denotes grammars whose first rule belongs to the start variable and whose terminals are the used ones
         rules.sort(key=lambda r: 0 if r[0] == g['S'] else 1)
-        cases.append({'kind': 'cfg', 'X': G.mk_cfg(rules, g['S'])})
+        cases.append({'kind': 'cfg', 'X': G.mk_cfg(rules, g['S']), 'cfg_eps': rng.choice([None, None, 'e', 'z'])})
     return cases
 
 
@@ -93,7 +93,11 @@ def observe(c):
                 out.append([None, False])
         return {'re': out}
     from gambatools.cfg_algorithms import cfg_print_simple, parse_simple_cfg
-    Gm = conv.cfg_obj(x)
+    if c.get('cfg_eps'):
+        text0 = 'epsilon = %s\n' % c['cfg_eps'] + conv.cfg_simple_text(x).replace('_', c['cfg_eps'])
+        Gm = parse_simple_cfg(text0)
+    else:
+        Gm = conv.cfg_obj(x)
     t = safe(cfg_print_simple, Gm)
     p = safe(parse_simple_cfg, t[1]) if ok(t) else ('err', 'print')
     same = None
